@@ -61,10 +61,18 @@ __CPROVER_ensures((OLD(AR_META(array).type) == _CBOR_METADATA_INDEFINITE &&
 /* success: view' = view ++ [pushee]; the container took one reference */
 __CPROVER_ensures(RET ==> (AR_META(array).end_ptr == OLD(AR_META(array).end_ptr) + 1 &&
                            AR_META(array).end_ptr <= AR_META(array).allocated &&
-                           AR_SLOTS(array)[OLD(AR_META(array).end_ptr)] == pushee &&
                            pushee->refcount == OLD(pushee->refcount) + 1))
-/* every earlier element is still in place, on success and on failure, across a reallocation too */
-__CPROVER_ensures((g_s.valid && g_k < OLD(AR_META(array).end_ptr)) ==> AR_SLOTS(array)[g_k] == g_s.item)
+/* storage not reallocated: the new element is in the next slot, every earlier element is still in place
+ * (the slots are named through the OLD data pointer: see the note on replace-mode contracts in items_ops.h) */
+#define PUSH_GREW(meta) (RET && OLD(meta.type) == _CBOR_METADATA_INDEFINITE && OLD(meta.end_ptr) == OLD(meta.allocated))
+__CPROVER_ensures(!PUSH_GREW(AR_META(array)) ==>
+                  ((RET ==> ((cbor_item_t **)OLD(array->data))[OLD(AR_META(array).end_ptr)] == pushee) &&
+                   ((g_s.valid && g_k < OLD(AR_META(array).end_ptr)) ==> ((cbor_item_t **)OLD(array->data))[g_k] == g_s.item)))
+/* storage reallocated: a fresh block of the grown capacity holding the earlier elements and the new one */
+__CPROVER_ensures(!PUSH_GREW(AR_META(array)) ||
+                  (__CPROVER_is_fresh(array->data, GROWN(OLD(AR_META(array).allocated)) * sizeof(cbor_item_t *)) &&
+                   AR_SLOTS(array)[OLD(AR_META(array).end_ptr)] == pushee &&
+                   (!(g_s.valid && g_k < OLD(AR_META(array).end_ptr)) || AR_SLOTS(array)[g_k] == g_s.item)))
 /* failure: everything exactly as before */
 __CPROVER_ensures(!RET ==> (AR_META(array).end_ptr == OLD(AR_META(array).end_ptr) &&
                             AR_META(array).allocated == OLD(AR_META(array).allocated) &&
@@ -132,11 +140,19 @@ __CPROVER_ensures((OLD(MP_META(item).type) == _CBOR_METADATA_INDEFINITE &&
                    (RET ? MP_META(item).allocated == GROWN(OLD(MP_META(item).allocated)) : g_refused)))
 __CPROVER_ensures(RET ==> (MP_META(item).end_ptr == OLD(MP_META(item).end_ptr) + 1 &&
                            MP_META(item).end_ptr <= MP_META(item).allocated &&
-                           MP_PAIRS(item)[OLD(MP_META(item).end_ptr)].key == key &&
-                           MP_PAIRS(item)[OLD(MP_META(item).end_ptr)].value == NULL &&
                            key->refcount == OLD(key->refcount) + 1))
-__CPROVER_ensures((g_s.valid && g_k < OLD(MP_META(item).end_ptr)) ==>
-                  (MP_PAIRS(item)[g_k].key == g_s.key && MP_PAIRS(item)[g_k].value == g_s.value))
+__CPROVER_ensures(!PUSH_GREW(MP_META(item)) ==>
+                  ((RET ==> (((struct cbor_pair *)OLD(item->data))[OLD(MP_META(item).end_ptr)].key == key &&
+                             ((struct cbor_pair *)OLD(item->data))[OLD(MP_META(item).end_ptr)].value == NULL)) &&
+                   ((g_s.valid && g_k < OLD(MP_META(item).end_ptr)) ==>
+                    (((struct cbor_pair *)OLD(item->data))[g_k].key == g_s.key &&
+                     ((struct cbor_pair *)OLD(item->data))[g_k].value == g_s.value))))
+__CPROVER_ensures(!PUSH_GREW(MP_META(item)) ||
+                  (__CPROVER_is_fresh(item->data, GROWN(OLD(MP_META(item).allocated)) * sizeof(struct cbor_pair)) &&
+                   MP_PAIRS(item)[OLD(MP_META(item).end_ptr)].key == key &&
+                   MP_PAIRS(item)[OLD(MP_META(item).end_ptr)].value == NULL &&
+                   (!(g_s.valid && g_k < OLD(MP_META(item).end_ptr)) ||
+                    (MP_PAIRS(item)[g_k].key == g_s.key && MP_PAIRS(item)[g_k].value == g_s.value))))
 __CPROVER_ensures(!RET ==> (MP_META(item).end_ptr == OLD(MP_META(item).end_ptr) &&
                             MP_META(item).allocated == OLD(MP_META(item).allocated) &&
                             item->data == OLD(item->data) && key->refcount == OLD(key->refcount) && g_live == OLD(g_live)))
